@@ -135,7 +135,7 @@ static void collect_stream_tracers()
     }
 }
 
-static void emit(char const* op, std::vector<int> const& a, int acc, int ret, std::string const& thr, int skip = 0)
+static void emit(char const* op, std::vector<int> const& a, int acc, int ret, std::string const& thr, int skip)
 {
   collect_stream_tracers();
   std::ostringstream o;
@@ -193,6 +193,71 @@ static bool oko(int o) { return o >= 1 && o <= NOBJ; }
 static bool okk(int k) { return k >= 1 && k <= NMON; }
 static bool okt(int t) { return t >= 1 && t <= NTR; }
 
+static bool okm(int m); static bool oks_(int s); static bool okq(int q); static bool oko(int o); static bool okk(int k); static bool okt(int t);
+static bool scoped_exp[NSLOT + 1];
+static bool scoped_mon[NMON + 1];
+static void run_op(std::string const& line);
+
+// runs lines[i..] until the matching `endscope` (or the end); returns the index after it
+static size_t run_block(std::vector<std::string> const& lines, size_t i)
+{
+  while (i < lines.size()) {
+    std::string const& line = lines[i];
+    if (line.compare(0, 8, "endscope") == 0) return i + 1;
+    if (line.compare(0, 6, "scope ") == 0 || line.compare(0, 7, "mscope ") == 0) {
+      bool mon = line[0] == 'm';
+      std::istringstream is(line); std::string op; is >> op;
+      std::vector<int> a; int x; while (is >> x) a.push_back(x);
+      auto A = [&](size_t k) { return k < a.size() ? a[k] : 0; };
+      size_t next = i + 1;
+      std::string thr; bool ran = false;
+      auto body = [&] { ran = true; next = run_block(lines, i + 1); };
+      try {
+        if (!mon) {
+          int s = A(0);
+          if (oks_(s) && !exps[s] && !scoped_exp[s] && okm(A(2)) && mocks[A(2)]) {
+            SlotCfg& c = cfg[s]; c = SlotCfg{}; c.mock = A(2);
+            c.p[0] = {A(3), A(4)}; c.p[1] = {A(5), A(6)};
+            c.w[0] = {A(7), A(8)}; c.w[1] = {A(9), A(10)}; c.w[2] = {A(11), A(12)};
+            c.se[0] = A(13); c.se[1] = A(14); c.se[2] = A(15);
+            c.retv = A(16); c.lo = A(17); c.hi = A(18); c.q[0] = A(19); c.q[1] = A(20);
+            c.nest[0] = a.size() > 21 ? A(21) : -1; c.nest[1] = A(22); c.nest[2] = A(23); c.nest[3] = A(24);
+            scoped_exp[s] = true;
+            struct Clr { bool& b; ~Clr() { b = false; } } clr{scoped_exp[s]};
+            make_scoped(s, A(1), [&] { emit("sexpect", a, 1, 0, "", 0); }, body);
+            scoped_exp[s] = false;
+            emit("release", {s}, 1, 0, "", 0);          // scope exit: the expectation's lifetime ended
+          } else { emit("sexpect", a, 1, 0, "", 1); }
+        } else {
+          int k = A(0), o = A(1), nq = A(2);
+          if (okk(k) && !mons[k] && !scoped_mon[k] && oko(o) && objs[o]) {
+            scoped_mon[k] = true;
+            struct Clr { bool& b; ~Clr() { b = false; } } clr{scoped_mon[k]};
+            make_scoped_monitor(k, o, nq, A(3), A(4), [&] { emit("swatch", a, 1, 0, "", 0); }, body);
+            scoped_mon[k] = false;
+            emit("unwatch", {k}, 1, 0, "", 0);
+          } else { emit("swatch", a, 1, 0, "", 1); }
+        }
+      }
+      catch (std::exception const& e) { thr = std::string("std:") + e.what(); emit(mon ? "swatch" : "sexpect", a, 1, 0, thr, 0); }
+      if (!ran) {             // the scope body was not entered: skip its lines
+        int depth = 1; size_t j = i + 1;
+        while (j < lines.size() && depth > 0) {
+          if (lines[j].compare(0, 6, "scope ") == 0 || lines[j].compare(0, 7, "mscope ") == 0) ++depth;
+          else if (lines[j].compare(0, 8, "endscope") == 0) --depth;
+          ++j;
+        }
+        next = j;
+      }
+      i = next;
+      continue;
+    }
+    run_op(line);
+    ++i;
+  }
+  return i;
+}
+
 static void run_op(std::string const& line)
 {
   std::istringstream is(line);
@@ -213,7 +278,7 @@ static void run_op(std::string const& line)
     } else if (op == "expect") {
       // expect slot shape mock p1op p1v p2op p2v w1op w1v w2op w2v w3op w3v se1 se2 se3 retv lo hi q1 q2 [nm nf na nb]
       int s = A(0);
-      if (!oks_(s) || exps[s] || !okm(A(2)) || !mocks[A(2)]) skip = true;
+      if (!oks_(s) || exps[s] || scoped_exp[s] || !okm(A(2)) || !mocks[A(2)]) skip = true;
       else {
         SlotCfg& c = cfg[s];
         c = SlotCfg{};
@@ -243,7 +308,7 @@ static void run_op(std::string const& line)
     } else if (op == "watch") {
       // watch k o nq q1 q2
       int k = A(0), o = A(1), nq = A(2);
-      if (!okk(k) || mons[k] || !oko(o) || !objs[o] || (nq >= 1 && (!okq(A(3)) || !seqs[A(3)])) || (nq >= 2 && (!okq(A(4)) || !seqs[A(4)])))
+      if (!okk(k) || mons[k] || scoped_mon[k] || !oko(o) || !objs[o] || (nq >= 1 && (!okq(A(3)) || !seqs[A(3)])) || (nq >= 2 && (!okq(A(4)) || !seqs[A(4)])))
         skip = true;
       else if (!make_monitor(k, o, nq, A(3), A(4))) skip = true;
     } else if (op == "unwatch") {
@@ -310,7 +375,7 @@ static int run_segment(std::vector<std::string> const& ops)
 {
   std::set_terminate(on_terminate);
   trompeloeil::set_reporter(rf(1), okf(1));
-  for (auto const& l : ops) run_op(l);
+  run_block(ops, 0);
   // quiet final tear-down of whatever the script left alive
   quiet = true;
   try {
